@@ -23,11 +23,11 @@ def big(x):
 ENCS = [("$i64", -2**63, 2**63 - 1), ("$u64", 0, 2**64 - 1), ("$i128", -2**127, 2**127 - 1), ("$u128", 0, 2**128 - 1)]
 
 
-def int_encodings(v, tier):
+def int_encodings(v, tier, full=False):
     out = [(e, {e: str(v)}) for e, lo, hi in ENCS if lo <= v <= hi]
     if -2**63 < v < 2**63:
         out.append(("lit", None))
-    if tier == "quick" and len(out) > 2:
+    if tier == "quick" and len(out) > 2 and not full:
         # two machine encodings (which two rotates with the value, so that every pair of encodings meets across the universe)
         # plus the literal spelling
         lit = [o for o in out if o[0] == "lit"]
@@ -137,8 +137,9 @@ def run(tier):
                         add(src, ctx, exp, {"op": "**", "a": str(a), "b": ">=2^32" if v["e"] < 0 else str(e), "ea": x[0], "eb": y[0]})
         else:
             pa, pb = num_py(v["a"]), num_py(v["b"])
-            encs_a = int_encodings(pa, tier) if v["a"]["k"] == "int" else [("f64", f64_enc(pa))]
-            encs_b = int_encodings(pb, tier) if v["b"]["k"] == "int" else [("f64", f64_enc(pb))]
+            # comparisons meet every machine encoding of both operands (a zero held as u128 against a negative float, ...)
+            encs_a = int_encodings(pa, tier, True) if v["a"]["k"] == "int" else [("f64", f64_enc(pa))]
+            encs_b = int_encodings(pb, tier, True) if v["b"]["k"] == "int" else [("f64", f64_enc(pb))]
             # an integer that is exactly representable may also arrive as a float
             if v["a"]["k"] == "int" and float(pa) == pa and int(float(pa)) == pa and abs(pa) < 2**127:
                 encs_a = encs_a + [("f64", f64_enc(float(pa)))]
